@@ -31,6 +31,7 @@ Go `int` arithmetic that can go negative is rewritten over `Nat` without truncat
 `start <= latestPossibleStart` ⇔ `start + minLen ≤ n`; `pos < Runtextend-1` ⇔ `pos + 1 < n`.
 -/
 import RegexVerif.Model.Scan
+import RegexVerif.Model.BoyerMoore
 
 namespace RegexVerif.Finders
 
@@ -186,14 +187,26 @@ def finderAnchors (lower : Nat → Nat) (a : Anchors) (bm : Option Bm) (rtl : Bo
 
 /-! ### path 2: `BmPrefix.Scan` -/
 
-/-- `BmPrefix.Scan(text, pos, 0, len(text))` and the `-1` handling: left-to-right the first occurrence
-    starting at or after `pos`; right-to-left the last occurrence ENDING at or before `pos`, reported
-    by its end — in both directions the first position in scan order at which `IsMatch` would hold.
-    (The skip tables are not modelled; this is the function they implement.) -/
-def finderBmScan (lower : Nat → Nat) (b : Bm) (rtl : Bool) (text : List Nat) (pos : Nat) : Bool × Nat :=
+/-- what `BmPrefix.Scan(text, pos, 0, len(text))` is meant to compute, with the `-1` handling: left-to-right
+    the first occurrence starting at or after `pos`; right-to-left the last occurrence ENDING at or before
+    `pos`, reported by its end — in both directions the first position in scan order at which `IsMatch`
+    would hold.  (`Props.C03.finder_bmScan_eq_spec`: the real scan below computes exactly this.) -/
+def finderBmScanSpec (lower : Nat → Nat) (b : Bm) (rtl : Bool) (text : List Nat) (pos : Nat) : Bool × Nat :=
   let n := text.length
   if rtl then rtlResult (findDown (bmIsMatch lower b true text) pos)
   else ltrResult n (findUp (bmIsMatch lower b false text) (n + 1 - pos) pos)
+
+/-- `r.Runtextpos = r.code.BmPrefix.Scan(r.Runtext, r.Runtextpos, 0, r.Runtextend)` and the `-1` handling
+    (runner.go:1420-1430), with the Boyer-Moore machine of Model/BoyerMoore.lean: tables built as
+    `newBmPrefix` builds them from the (already lower-cased) pattern, `Scan` with its skip loop.  A pattern
+    for which `newBmPrefix` returns nil has no `Code.BmPrefix`; the model answers "no candidate" without
+    moving. -/
+def finderBmScan (lower : Nat → Nat) (b : Bm) (rtl : Bool) (text : List Nat) (pos : Nat) : Bool × Nat :=
+  match BoyerMoore.build b.pat b.ci rtl with
+  | none => (false, pos)
+  | some t =>
+    if rtl then rtlResult (BoyerMoore.scan lower t text pos 0 text.length)
+    else ltrResult text.length (BoyerMoore.scan lower t text pos 0 text.length)
 
 /-! ### path 4: `Code.FcPrefix` -/
 
@@ -370,11 +383,6 @@ structure LmMatch where
   «end» : Nat
 deriving Repr, DecidableEq
 
-def optMemAt (S : Option (Nat → Bool)) (text : List Nat) (i : Nat) : Bool :=
-  match S with
-  | some m => memAt m text i
-  | none => false
-
 /-- `for end < endAt && end-start < maxRepeat && set.CharIn(input[end]) { end++ }` -/
 def runOf (S : Nat → Bool) (text : List Nat) (start maxRepeat : Nat) : Nat → Nat → Nat
   | 0, e => e
@@ -382,24 +390,45 @@ def runOf (S : Nat → Bool) (text : List Nat) (start maxRepeat : Nat) : Nat →
     if decide (e < text.length) && decide (e - start < maxRepeat) && memAt S text e then runOf S text start maxRepeat fuel (e + 1)
     else e
 
+def optMemAt (S : Option (Nat → Bool)) (text : List Nat) (i : Nat) : Bool :=
+  match S with
+  | some m => memAt m text i
+  | none => false
+
+/-- `for end-start > alt.MinRepeat && (end >= endAt || !TrailingWhitespaceSet.CharIn(input[end])) { end-- }`
+    (/repo 5d7d1a2): a set core that overlaps the whitespace required after it may give repetitions back -/
+def giveBack (W : Option (Nat → Bool)) (text : List Nat) (start minRepeat : Nat) : Nat → Nat
+  | 0 => 0
+  | e + 1 =>
+    if decide (minRepeat < e + 1 - start) && (decide (text.length ≤ e + 1) || !optMemAt W text (e + 1)) then
+      giveBack W text start minRepeat e
+    else e + 1
+
+/-- the core of `requiredLandmarkAlternativeMatch`: where the literal ends; or the greedy run of the set (at
+    most `MaxRepeat`, at least `MinRepeat` characters), shortened to the last admissible end that is
+    followed by the required trailing whitespace, if there is one -/
+def lmCore (text : List Nat) (start : Nat) (alt : LmAlt) : Option Nat :=
+  let n := text.length
+  if !alt.literal.isEmpty then
+    if decide (n < start + alt.literal.length) || !occursAt eqExact alt.literal text start then none
+    else some (start + alt.literal.length)
+  else match alt.set with
+    | some S =>
+      if 0 < alt.minRepeat then
+        let maxRepeat := if alt.maxRepeat ≤ 0 then alt.minRepeat else alt.maxRepeat.toNat
+        let e := runOf S text start maxRepeat (n + 1) start
+        if e - start < alt.minRepeat then none
+        else if alt.reqAfter && alt.trailWs.isSome then some (giveBack alt.trailWs text start alt.minRepeat e)
+        else some e
+      else none
+    | none => none
+
 /-- `requiredLandmarkAlternativeMatch(input, start, len(input), alt)` -/
 def lmAltMatch (text : List Nat) (start : Nat) (alt : LmAlt) : Option LmMatch :=
   let n := text.length
   if alt.reqBefore && (decide (start = 0) || !optMemAt alt.leadWs text (start - 1)) then none
   else
-    let core : Option Nat :=
-      if !alt.literal.isEmpty then
-        if decide (n < start + alt.literal.length) || !occursAt eqExact alt.literal text start then none
-        else some (start + alt.literal.length)
-      else match alt.set with
-        | some S =>
-          if 0 < alt.minRepeat then
-            let maxRepeat := if alt.maxRepeat ≤ 0 then alt.minRepeat else alt.maxRepeat.toNat
-            let e := runOf S text start maxRepeat (n + 1) start
-            if e - start < alt.minRepeat then none else some e
-          else none
-        | none => none
-    match core with
+    match lmCore text start alt with
     | none => none
     | some e =>
       if alt.reqAfter && (decide (n ≤ e) || !optMemAt alt.trailWs text e) then none
